@@ -1242,8 +1242,9 @@ def circuit_op(draw, reg_, depth=0, no_measure=False):
     elif mode == "sym_reps":
         r["repetitions"] = draw(st.one_of(_ssym(), sexpr(1)))
         r["use_repetition_ids"] = draw(st.sampled_from([None, False]))
-    elif mode == "until" and keys and not no_measure:
-        kk = draw(st.sampled_from(keys))
+    elif mode == "until" and plain and not no_measure:
+        # (scoped keys / parent paths under repeat_until are C12's domain: the constructor's own key scoping then decides)
+        kk = draw(st.sampled_from(plain))
         kobj = cirq.MeasurementKey.parse_serialized(kk)
         kr = {"T": "mkey", "n": kobj.name, "p": list(kobj.path)}
         r["repeat_until"] = draw(st.one_of(
@@ -1252,7 +1253,7 @@ def circuit_op(draw, reg_, depth=0, no_measure=False):
             st.just({"T": "SympyCondition", "e": {"T": "S", "op": "gt", "a": [{"T": "S", "op": "sym", "n": kk}, {"T": "S", "op": "int", "v": 0}]}}) if kk.isidentifier() else st.nothing()))
         r["use_repetition_ids"] = False
         r.pop("measurement_key_map", None)
-    if draw(st.integers(0, 2)) == 0:
+    if draw(st.integers(0, 2)) == 0 and "repeat_until" not in r:
         r["parent_path"] = draw(st.lists(st.sampled_from(PATHS), min_size=1, max_size=2))
     r["_w"] = sorted(used)
     return r
